@@ -473,6 +473,7 @@ pub fn analyze<'a>(prog: &'a Program, tr: &'a [Ev]) -> Analysis<'a> {
                     RAct::Broadcast { ty, pay } => (0u8, *ty, None, None, Some(*pay)),
                     RAct::EntityEv { ent, ty, pay } => (1, *ty, None, Some(*ent), Some(*pay)),
                     RAct::SendSe { inst, ty, pay } => (2, *ty, Some(*inst), None, Some(*pay)),
+                    RAct::SendSeEnt { ent, ty, pay } => (2, *ty, None, Some(*ent), Some(*pay)),
                     _ => (0, 0, None, None, None),
                 };
                 if let Some(id) = pay {
